@@ -1,34 +1,45 @@
 #!/venv/bin/python
-"""Apply each seeded change to /repo, run every claimed check (quick tier) in parallel, record which properties report a violation.
-usage: tools/seed_matrix.py <seed-root> <out.json>   (seed-root contains <ID>/<variant>/patch.diff or <ID>-out/<variant>/patch.diff)"""
-import json, os, subprocess, sys, glob
+"""Apply each seeded change to a scratch copy of /repo's HEAD (outside /repo and /verif, removed afterwards), run every claimed check
+(quick tier) on it in parallel, record which properties report a violation.
+usage: tools/seed_matrix.py <seed-root> <out.json>   (seed-root contains <ID>-out/<variant>/patch.diff, or <name>/patch.diff as in /verif/seeded)"""
+import json, os, subprocess, sys, glob, shutil, tempfile
 from concurrent.futures import ThreadPoolExecutor
 root, out = sys.argv[1], sys.argv[2]
 props = [c['property_id'] for c in json.load(open('/verif/MANIFEST.json'))['checks']]
-def run(p):
-    r = subprocess.run(['/venv/bin/python', '/verif/sa/run.py', '--property', p], capture_output=True, text=True, env=dict(os.environ, VERIF_EVIDENCE_DIR='/tmp/seed/evtmp'))
+res = json.load(open(out)) if os.path.exists(out) else {}
+seeds = sorted(glob.glob(os.path.join(root, '*', '*', 'patch.diff'))) or sorted(glob.glob(os.path.join(root, '*', 'patch.diff')))
+base = tempfile.mkdtemp(prefix='seedmx-')
+clean = os.path.join(base, 'clean')
+os.makedirs(clean)
+subprocess.run('git -C /repo archive HEAD skoolkit c | tar -x -C %s' % clean, shell=True, check=True)
+def run(args):
+    p, tree, ev = args
+    r = subprocess.run(['/venv/bin/python', '/verif/sa/run.py', '--property', p, '--repo', tree], capture_output=True, text=True, env=dict(os.environ, VERIF_EVIDENCE_DIR=ev))
     rules = sorted({l.split('rule ')[1].split(':')[0] for l in r.stdout.splitlines() if ': rule ' in l and not l.startswith('rule')})
     return p, r.returncode, rules
-res = {}
-if os.path.exists(out):
-    res = json.load(open(out))
-seeds = sorted(glob.glob(os.path.join(root, '*', '*', 'patch.diff'))) or sorted(glob.glob(os.path.join(root, '*', 'patch.diff')))
-for pf in seeds:
-    d = os.path.dirname(pf)
-    sid = os.path.basename(os.path.dirname(d)).replace('-out', '') + '/' + os.path.basename(d)
-    if os.path.dirname(d) == root.rstrip('/'):
-        sid = os.path.basename(d)          # /verif/seeded/<ID>-<v>/patch.diff
-    if sid in res:
-        continue
-    subprocess.run(['git', '-C', '/repo', 'checkout', '--', '.'])
-    a = subprocess.run(['git', '-C', '/repo', 'apply', pf], capture_output=True, text=True)
-    if a.returncode != 0:
-        res[sid] = {'applies': False}
-        continue
-    with ThreadPoolExecutor(9) as ex:
-        rs = list(ex.map(run, props))
-    subprocess.run(['git', '-C', '/repo', 'checkout', '--', '.'])
-    res[sid] = {'applies': True, 'detected_by': {p: rules for p, rc, rules in rs if rc == 1}, 'errors': [p for p, rc, rules in rs if rc not in (0, 1)]}
-    json.dump(res, open(out, 'w'), indent=1)
-    print(sid, sorted(res[sid]['detected_by']), res[sid]['errors'], flush=True)
-subprocess.run(['git', '-C', '/repo', 'checkout', '--', '.'])
+try:
+    for pf in seeds:
+        d = os.path.dirname(pf)
+        sid = os.path.basename(os.path.dirname(d)).replace('-out', '') + '/' + os.path.basename(d)
+        if os.path.dirname(d) == root.rstrip('/'):
+            sid = os.path.basename(d)
+        if sid in res:
+            continue
+        tree = os.path.join(base, 'tree')
+        shutil.rmtree(tree, ignore_errors=True)
+        shutil.copytree(clean, tree)
+        a = subprocess.run(['patch', '-p1', '-s', '-f', '-d', tree, '-i', pf], capture_output=True, text=True)
+        if a.returncode != 0:
+            res[sid] = {'applies': False}
+            json.dump(res, open(out, 'w'), indent=1)
+            print(sid, 'does not apply', flush=True)
+            continue
+        ev = os.path.join(base, 'ev')
+        os.makedirs(ev, exist_ok=True)
+        with ThreadPoolExecutor(9) as ex:
+            rs = list(ex.map(run, [(p, tree, ev) for p in props]))
+        res[sid] = {'applies': True, 'detected_by': {p: rules for p, rc, rules in rs if rc == 1}, 'errors': [p for p, rc, rules in rs if rc not in (0, 1)]}
+        json.dump(res, open(out, 'w'), indent=1)
+        print(sid, sorted(res[sid]['detected_by']), res[sid]['errors'], flush=True)
+finally:
+    shutil.rmtree(base, ignore_errors=True)
